@@ -57,11 +57,11 @@ func Spec(prop, tier string) *core.CheckSpec {
 			Batches: []core.Batch{
 				{Engine: "quota", Mode: "mem", Runs: n(20000, 2000000), Millis: ms(25000, 500000)},
 				{Engine: "quotaadv", Mode: "mem", Runs: n(4000, 400000), Millis: ms(25000, 400000), HangS: 60, Chunk: 300},
-				{Engine: "crash", Mode: "lib-amp", Runs: n(6000, 600000), Millis: ms(15000, 300000), HangS: 60, Chunk: 500, Note: "every Go function reachable from the global table x argument tuples with sizes far beyond the limit (integers up to 2^40, 100 kB strings, 2000-item tables): what is returned fits under the limit, the process heap does not grow beyond 16 M + 128 MiB, the call returns within 10 s"},
+				{Engine: "crash", Mode: "lib-amp", Runs: n(6000, 600000), Millis: ms(15000, 300000), HangS: 60, Chunk: 500, Note: "every Go function reachable from the global table x argument tuples with sizes far beyond the limit (integers up to 2^40, 100 kB strings, 2000-item tables): what is returned fits under the limit, the process heap does not grow beyond 64 M + 128 MiB, the call returns within 10 s"},
 			},
 			Real:   realAll,
 			Stub:   []string{"goroutine scheduling decisions (controlled scheduler)", "host callbacks emit/probe"},
-			Assume: []string{"heap bound M3 uses runtime.MemStats.TotalAlloc of the worker process: cumulative allocation <= 16*M + 96 MiB + 600 bytes per CPU tick allowed, and growth of the process heap <= 16*M + 128 MiB per run"},
+			Assume: []string{"heap bound M3 uses runtime.MemStats.TotalAlloc of the worker process: cumulative allocation <= 16*M + 96 MiB + 600 bytes per CPU tick allowed, and growth of the process heap <= 64*M + 128 MiB per run (a suspended coroutine is accounted 2 kB but holds a goroutine stack and a thread object: the constant covers that)"},
 		}
 	case "C10":
 		return &core.CheckSpec{
